@@ -213,7 +213,16 @@ pub fn run_case(rec: &mut Recorder, rng: &mut Rng, which: &str, thorough: bool, 
     } else {
         p
     };
-    let d = gen_dag(rng, &p);
+    // one scenario in eight: a wide frontier (12..16 lazy heads, 24 in the thorough tier) whose
+    // heads branch off at different depths, delivered to some replicas without one or two leaves
+    let wide = rng.chance(1, 8);
+    let d = if wide {
+        rec.count("shape:wide-frontier");
+        let leaves = rng.range(12, if thorough { 24 } else { 16 }) as usize;
+        gen_wide_dag(rng, &DagParams { check_pct: 0, ..p.clone() }, leaves)
+    } else {
+        gen_dag(rng, &p)
+    };
     let cmds = realize(&d, case_salt);
     let g = graph_id_of(&cmds[0]);
     let nrep = rng.range(2, 3) as usize;
@@ -227,7 +236,25 @@ pub fn run_case(rec: &mut Recorder, rng: &mut Rng, which: &str, thorough: bool, 
     // phase 1: same DAG, different histories
     for r in reps.iter_mut() {
         let mut order = causal_perm(rng, &cmds);
-        if rng.chance(1, 3) {
+        if wide && rng.chance(1, 2) {
+            // this replica misses one or two leaves (leaves have no children: still causally closed)
+            let child_parents: BTreeSet<CmdId> = cmds
+                .iter()
+                .flat_map(|c| match &c.parent {
+                    Prior::None => vec![],
+                    Prior::Single(a) => vec![a.id],
+                    Prior::Merge(a, b) => vec![a.id, b.id],
+                })
+                .collect();
+            for _ in 0..rng.range(1, 2) {
+                let leaf_pos: Vec<usize> = order.iter().enumerate().filter(|(_, c)| !child_parents.contains(&c.id)).map(|(i, _)| i).collect();
+                if leaf_pos.len() > 1 {
+                    let i = *rng.pick(&leaf_pos);
+                    order.remove(i);
+                }
+            }
+            rec.count("wide_missing_leaves");
+        } else if rng.chance(1, 3) {
             // this replica only receives a causal prefix (the rest may arrive by relay later)
             let cut = rng.range(1, order.len() as u64) as usize;
             order.truncate(cut);
